@@ -43,7 +43,7 @@ SPEC = dict(
     harness_args=["c03"],
     driver_args=["c03"],
     ml_modules=["scan_model"],
-    n={"quick": 850, "thorough": 8500},
+    n={"quick": 850, "thorough": 5000},
     search_n={"quick": 3000, "thorough": 20000},
     nontrivial=nontrivial,
     histogram=histogram,
